@@ -32,6 +32,8 @@ def obligations():
         Obl("C04.subset.kinds", "xh", H, "subset_kinds", [T + "_topology_from_subset"], "every non-empty subset; " + K, "same for elements, bond types, orders; resSeq 0 kept", 400, quick_pre="bo <= 1 and e0 <= 2", timeout_thorough=1500),
         Obl("C04.join.attrs", "xh", H, "join_preserves", [T + "Topology.join"], A + "; keep_resSeq in {T,F}",
             "join keeps both operands' atoms, residues (renumbered iff requested), chain ids and bonds; operands unchanged", 300, timeout_thorough=1200),
+        Obl("C04.join.independent", "xh", H, "join_independent", [T + "Topology.join", T + "Topology.copy"], "both operands non-empty / empty left / empty right; edit in {insert, delete, add_bond}",
+            "join returns a NEW topology sharing nothing with its operands (also when one of them is empty): editing it changes neither", 240),
         Obl("C04.join.kinds", "xh", H, "join_kinds", [T + "Topology.join"], K, "same for elements, bond types, orders", 300),
         Obl("C04.eq_implies_hash.attrs", "xh", HH, "eq_implies_hash_attrs", [T + "Topology.__eq__", T + "Topology.__hash__", T + "Residue.__hash__", T + "Chain.__hash__", T + "Atom.__hash__"],
             "two topologies with independent symbolic names, residue names, segment ids, chain ids, serials, resSeq", "t1 == t2 implies equal hash inputs (structural hash)", 400, timeout_thorough=1800),
